@@ -88,7 +88,9 @@ def _r1(chk, repo, conj):
     # the pairs
     for pair, fams in (("_GaussianGammaPair", "(Gaussian,GMRF)"), ("_RegularizedGaussianGammaPair", "(RegularizedGaussian,RegularizedGMRF)")):
         ci = repo.cls(f"{EXP}:{pair}")
-        f = repo.method(ci, "validate_target")[1]
+        f_src = repo.method(ci, "validate_target")[1]
+        from .common import canon_fn
+        f = canon_fn(repo, ci, f_src, 1)
         g = CFG(f)
         tests = {_norm(t.ast): t for t in g.tests()}
         problems = []
@@ -101,44 +103,206 @@ def _r1(chk, repo, conj):
             t = tests.get(txt)
             if t is None or not all(g.nodes[m].kind == "raisestmt" for m, l in g.succ[t.id] if l == lab):
                 problems.append(f"{what} is not enforced (`{txt}` -> raise)")
-        gp = [n for n in g.nodes if n.ast is not None and _norm(n.ast) == "key,value=_get_conjugate_parameter(self.target)"]
+        gp = [n for n in g.nodes if n.ast is not None and n.kind == "stmt" and isinstance(n.ast, ast.Assign) and isinstance(n.ast.value, ast.Call)
+              and _norm(n.ast.value) == "_get_conjugate_parameter(self.target)"]
         if len(gp) != 1:
             problems.append("the hyper-parameter's occurrence is not extracted with _get_conjugate_parameter")
-        for key, helper in (("cov", "_check_conjugate_parameter_is_scalar_reciprocal(value)"), ("prec", "_check_conjugate_parameter_is_scalar_identity(value)")):
-            kt = tests.get(f"key=='{key}'")
-            ht = tests.get(helper)
-            if kt is None or ht is None or not g.requires_edge(ht, kt, "T") or \
-                    not all(g.nodes[m].kind == "raisestmt" for m, l in g.succ[ht.id] if l == "F"):
-                problems.append(f"functional form for `{key}` is not probed by {helper.split('(')[0]} with refusal on failure")
-        # exhaustive: neither cov nor prec -> raise
-        kc, kp = tests.get("key=='cov'"), tests.get("key=='prec'")
-        if kc is not None and kp is not None:
-            reach = g.reachable_from([g.entry.id], avoid_edges={(kc.id, "T"), (kp.id, "T")})
-            if g.exit.id in reach:
-                problems.append("a hyper-parameter entering through another variable than cov/prec is accepted")
-        # every path to the normal exit passes one of the probing helpers
-        if gp and g.exit_reachable_avoiding(lambda n: n.kind == "test" and "_check_conjugate_parameter_is_scalar" in _norm(n.ast)):
-            problems.append("validation can succeed without the functional form having been probed")
-        chk.add("C10-R1", f"{ci.qual}.validate_target", not problems, site(repo, f), "family, Gamma, dim 1, occurrence, functional form, exhaustive key dispatch",
-                "; ".join(problems), f)
-    gcp = repo.func(f"{EXP}:_get_conjugate_parameter")
-    g = CFG(gcp)
-    t1 = [t for t in g.tests() if _norm(t.ast) == "len(found_parameter_pairs)==1"]
-    t2 = [t for t in g.tests() if _norm(t.ast) == "len(found_parameter_pairs)>1"]
-    ok = len(t1) == 1 and len(t2) == 1 and all(g.nodes[m].kind == "raisestmt" for m, l in g.succ[t2[0].id]) and \
-        all(r.kind == "return" and g.requires_edge(r, t1[0], "T") for r in g.returns())
-    app = [n for n in g.nodes if n.ast is not None and n.kind == "stmt" and "found_parameter_pairs.append" in _norm(n.ast)]
-    ok = ok and len(app) == 1 and any("callable(attr)" in _norm(t.ast) and lab == "T" for t, lab in g.guards_of(app[0])) \
-        and any("par_nameinget_non_default_args(attr)" in _norm(t.ast) and lab == "T" for t, lab in g.guards_of(app[0]))
-    lp = [n for n in ast.walk(gcp) if isinstance(n, ast.For)]
-    ok = ok and len(lp) == 1 and _norm(lp[0].iter) == "mutable_likelihood_vars"
-    chk.add("C10-R1", f"{EXP}:_get_conjugate_parameter", ok, site(repo, gcp), "exactly one mutable variable may depend on the hyper-parameter; 0 or >1 -> raise",
-            "occurrences of the hyper-parameter are not counted over all mutable variables with refusal of 0 or several", gcp)
-    for name, val in (("_check_conjugate_parameter_is_scalar_identity", "x"), ("_check_conjugate_parameter_is_scalar_reciprocal", "1.0/x")):
+        # functional form: decided path-sensitively on the value of `key` (cov / prec / anything else). For each case the tests on `key`
+        # are evaluated, the CFG is pruned accordingly, and the normal exit must be unreachable unless the matching probe returned True.
+        if gp:
+            kname = unparse(gp[0].ast.targets[0].elts[0]) if isinstance(gp[0].ast.targets[0], ast.Tuple) else "key"
+            vname = unparse(gp[0].ast.targets[0].elts[1]) if isinstance(gp[0].ast.targets[0], ast.Tuple) else "value"
+            probes = {"cov": "_check_conjugate_parameter_is_scalar_reciprocal", "prec": "_check_conjugate_parameter_is_scalar_identity"}
+            for case in ("cov", "prec", "<other>"):
+                avoid = set()
+                for t in g.tests():
+                    core, flip = t.ast, False
+                    while isinstance(core, ast.UnaryOp) and isinstance(core.op, ast.Not):
+                        core, flip = core.operand, not flip
+                    tv = _eval_key_test(core, kname, case)
+                    if tv is not None:
+                        tv = (not tv) if flip else tv
+                        avoid.add((t.id, "F" if tv else "T"))          # the edge that cannot be taken for this key
+                    elif isinstance(core, ast.Call) and call_name(core) == probes.get(case) and [unparse(a) for a in core.args] == [vname]:
+                        avoid.add((t.id, "F" if flip else "T"))          # consider only paths on which the matching probe FAILED (returned False)
+                reach = g.reachable_from([g.entry.id], avoid_edges=avoid)
+                if g.exit.id in reach:
+                    if case == "<other>":
+                        problems.append("a hyper-parameter entering through another variable than cov/prec is accepted")
+                    else:
+                        problems.append(f"functional form for `{case}` is not probed by {probes[case]} with refusal on failure "
+                                        f"(validation can succeed for key == '{case}' although the probe did not return True)")
+        chk.add("C10-R1", f"{ci.qual}.validate_target", not problems, site(repo, f_src), "family, Gamma, dim 1, occurrence, functional form, exhaustive key dispatch",
+                "; ".join(problems), f_src)
+    _count_rule(chk, repo)
+    for name, kind in (("_check_conjugate_parameter_is_scalar_identity", "identity"), ("_check_conjugate_parameter_is_scalar_reciprocal", "reciprocal")):
         f = repo.func(f"{EXP}:{name}")
-        t = _norm(f)
-        ok = ("[1.0,10.0,100.0]" in t) and (f"np.allclose(f(x),{val})" in t or f"math.isclose(f(x),{val})" in t) and "all(" in t
-        chk.add("C10-R1", f"{EXP}:{name}", ok, site(repo, f), f"probes f at 1, 10, 100 against {val}", "probe helper does not compare f at three scales against the required form", f)
+        why = _probe_ok(repo, f, kind)
+        chk.add("C10-R1", f"{EXP}:{name}", why is None, site(repo, f), f"probes f at three or more scales against the {kind} map",
+                f"probe helper does not compare f at three scales against the required form: {why}", f)
+
+
+def _eval_key_test(e, kname: str, case: str):
+    """truth of a test on the dispatch key for key == case ('<other>' = neither of the literals compared with); None if e is not about the key"""
+    if isinstance(e, ast.Compare) and len(e.ops) == 1:
+        l, r = e.left, e.comparators[0]
+        if isinstance(r, ast.Name) and r.id == kname and isinstance(l, ast.Constant):
+            l, r = r, l
+        if not (isinstance(l, ast.Name) and l.id == kname):
+            return None
+        if isinstance(r, ast.Constant) and isinstance(e.ops[0], (ast.Eq, ast.NotEq)):
+            v = (case == r.value)
+            return v if isinstance(e.ops[0], ast.Eq) else not v
+        if isinstance(r, (ast.Tuple, ast.List, ast.Set)) and all(isinstance(x, ast.Constant) for x in r.elts) and isinstance(e.ops[0], (ast.In, ast.NotIn)):
+            v = case in [x.value for x in r.elts]
+            return v if isinstance(e.ops[0], ast.In) else not v
+    return None
+
+
+def _count_rule(chk, repo):
+    """_get_conjugate_parameter: over ALL mutable variables of the likelihood distribution, the callables that take the hyper-parameter are
+    collected; exactly one -> returned, none or several -> raise. Decided path-sensitively on the number found (0, 1, 2)."""
+    from .common import canon_fn
+    from ..flow import Expander
+    gcp_src = repo.func(f"{EXP}:_get_conjugate_parameter")
+    gcp = canon_fn(repo, None, gcp_src, 1, rel=EXP)
+    ex = Expander(gcp)
+    g = ex.cfg
+    problems = []
+    app = [n for n in g.nodes if n.ast is not None and n.kind == "stmt" and isinstance(n.ast, ast.Expr) and isinstance(n.ast.value, ast.Call)
+           and isinstance(n.ast.value.func, ast.Attribute) and n.ast.value.func.attr == "append"]
+    lst = None
+    if len(app) == 1:
+        lst = path_of(app[0].ast.value.func.value)
+        gs = [(unparse(ex.expand(t.ast, t)).replace(" ", ""), lab) for t, lab in g.guards_of(app[0])]
+        if not any(tx.startswith("callable(getattr(") and lab == "T" for tx, lab in gs):
+            problems.append("a non-callable attribute can be counted")
+        if not any("inget_non_default_args(" in tx and lab == "T" for tx, lab in gs):
+            problems.append("a callable that does not take the hyper-parameter can be counted")
+        loops = [n for n in g.nodes if n.kind == "iter" and g.dominates(n, app[0])]
+        it = unparse(ex.expand(loops[-1].ast.iter, loops[-1])).replace(" ", "") if loops else "?"
+        if it != "target.likelihood.distribution.get_mutable_variables()":
+            problems.append(f"candidates are collected over `{it}`, not over all mutable variables of the likelihood distribution")
+    else:
+        # comprehension form
+        comp = [n for n in ast.walk(gcp) if isinstance(n, ast.Assign) and isinstance(n.value, ast.ListComp)]
+        if len(comp) == 1:
+            lst = path_of(comp[0].targets[0])
+        else:
+            chk.unknown("C10-R1", f"{EXP}:_get_conjugate_parameter", site(repo, gcp_src), "collection of the candidate (variable, callable) pairs not recognised", gcp_src)
+            return
+    for count in (0, 1, 2):
+        avoid = set()
+        for t in g.tests():
+            e = ex.expand(t.ast, t, stop=frozenset({lst}))
+            core, flip = e, False
+            while isinstance(core, ast.UnaryOp) and isinstance(core.op, ast.Not):
+                core, flip = core.operand, not flip
+            tv = _eval_len_test(core, lst, count)
+            if tv is None:
+                continue
+            tv = (not tv) if flip else tv
+            avoid.add((t.id, "F" if tv else "T"))
+        # loop edges: ignore the collection loop itself (counts are a hypothesis about its result)
+        reach = g.reachable_from([g.entry.id], avoid_edges=avoid)
+        rets = [r for r in g.returns() if r.id in reach]
+        if count == 1:
+            if not rets or not all(unparse(r.ast.value).replace(" ", "") == f"{lst}[0]" for r in rets):
+                problems.append(f"with exactly one occurrence the function does not return that pair ({[unparse(r.ast.value) for r in rets]})")
+        elif rets:
+            problems.append(f"with {'no' if count == 0 else 'several'} occurrence(s) of the hyper-parameter the function returns `{unparse(rets[0].ast.value)}` instead of raising")
+    chk.add("C10-R1", f"{EXP}:_get_conjugate_parameter", not problems, site(repo, gcp_src), "exactly one mutable variable may depend on the hyper-parameter; 0 or >1 -> raise",
+            "occurrences of the hyper-parameter are not counted over all mutable variables with refusal of 0 or several: " + "; ".join(problems), gcp_src)
+
+
+def _eval_len_test(e, lst: str, n: int):
+    """truth of a comparison of len(lst) (or of lst's truthiness) with an integer constant, for len == n (n = 2 stands for 'several')"""
+    def side(x):
+        if isinstance(x, ast.Call) and call_name(x) == "len" and len(x.args) == 1 and path_of(x.args[0]) == lst:
+            return "len"
+        if isinstance(x, ast.Constant) and isinstance(x.value, int) and not isinstance(x.value, bool):
+            return x.value
+        return None
+    if isinstance(e, ast.Compare) and len(e.ops) == 1:
+        a, b = side(e.left), side(e.comparators[0])
+        if a == "len" and isinstance(b, int):
+            L, R = n, b
+        elif b == "len" and isinstance(a, int):
+            L, R = a, n
+        else:
+            return None
+        if n == 2 and isinstance(e.ops[0], (ast.Eq,)) and ((a == "len" and b > 2) or (b == "len" and a > 2)):
+            return None
+        op = e.ops[0]
+        return {ast.Eq: L == R, ast.NotEq: L != R, ast.Lt: L < R, ast.LtE: L <= R, ast.Gt: L > R, ast.GtE: L >= R}.get(type(op))
+    if path_of(e) == lst:
+        return n > 0
+    return None
+
+
+def _probe_ok(repo, f, kind: str):
+    """None if the helper compares f(v) with v (identity) / 1/v (reciprocal) for every v of a literal collection of >= 3 distinct positive numbers and
+    returns the conjunction; otherwise the reason"""
+    from .common import canon_fn
+    fv = canon_fn(repo, None, f, 1, rel=EXP)
+    fname = func_params(f)[0]
+    mod = repo.mod(EXP)
+
+    def values_of(it):
+        if isinstance(it, ast.Name):
+            for s_ in mod.tree.body:
+                if isinstance(s_, ast.Assign) and path_of(s_.targets[0]) == it.id:
+                    return values_of(s_.value)
+            for s_ in ast.walk(fv):
+                if isinstance(s_, ast.Assign) and path_of(s_.targets[0]) == it.id:
+                    return values_of(s_.value)
+            return None
+        if isinstance(it, (ast.List, ast.Tuple)) and all(isinstance(x, ast.Constant) and isinstance(x.value, (int, float)) for x in it.elts):
+            return [float(x.value) for x in it.elts]
+        return None
+
+    def cmp_ok(c, var):
+        if not (isinstance(c, ast.Call) and call_name(c) in ("np.allclose", "math.isclose", "np.isclose") and len(c.args) >= 2):
+            return False
+        a, b = c.args[0], c.args[1]
+        if _norm(a) != f"{fname}({var})":
+            a, b = b, a
+        if _norm(a) != f"{fname}({var})":
+            return False
+        want = (var,) if kind == "identity" else (f"1.0/{var}", f"1/{var}", f"{var}**-1", f"{var}**(-1)")
+        return _norm(b) in want
+
+    # all(<cmp> for v in VALUES)
+    for r in ast.walk(fv):
+        if isinstance(r, ast.Return) and isinstance(r.value, ast.Call) and call_name(r.value) == "all" and len(r.value.args) == 1 \
+                and isinstance(r.value.args[0], (ast.GeneratorExp, ast.ListComp)):
+            ge = r.value.args[0]
+            var = path_of(ge.generators[0].target)
+            vals = values_of(ge.generators[0].iter)
+            if not cmp_ok(ge.elt, var):
+                return f"the compared expression is `{unparse(ge.elt)}`"
+            if not vals or len(set(vals)) < 3 or min(vals) <= 0:
+                return f"probe values are {vals}"
+            return None
+    # for v in VALUES: if not <cmp>: return False ; return True
+    loops = [n for n in ast.walk(fv) if isinstance(n, ast.For)]
+    if len(loops) == 1:
+        lp = loops[0]
+        var = path_of(lp.target)
+        vals = values_of(lp.iter)
+        g = CFG(fv)
+        rets = g.returns()
+        rf = [r for r in rets if isinstance(r.ast.value, ast.Constant) and r.ast.value.value is False]
+        rt = [r for r in rets if isinstance(r.ast.value, ast.Constant) and r.ast.value.value is True]
+        tests = [t for t in g.tests() if cmp_ok(t.ast.operand if isinstance(t.ast, ast.UnaryOp) else t.ast, var)]
+        if len(tests) == 1 and len(rf) == 1 and len(rt) == 1 and len(rets) == 2:
+            neg = isinstance(tests[0].ast, ast.UnaryOp)
+            fail_edge = "T" if neg else "F"
+            if g.requires_edge(rf[0], tests[0], fail_edge) and not vals is None and len(set(vals)) >= 3 and min(vals) > 0 \
+                    and not any(isinstance(x, ast.Break) for x in ast.walk(lp)):
+                return None
+            return f"probe values are {vals} / a failed comparison does not return False"
+    return "neither `all(isclose(f(v), form(v)) for v in values)` nor the equivalent loop"
 
 
 def _r1_legacy(chk, repo):
